@@ -11,6 +11,7 @@ PROP = {
              "every step every key of the key space is probed; non-trivial = a hit followed by a miss after expiry on the same key, or a "
              "re-store while the old entry's clean-up timer is still pending, or a refusal by the size limit; distinct = canonical JSON of the case"),
     "assumptions": [
+        "the gateway's log level (LOG_LEVEL: off in three cases of eight, else error / info / debug / trace; what is logged is thrown away, what a log statement does to build its arguments happens) is a generated part of every case of TestCachingHistories and TestThrottlingHistories: no answer may depend on it; a failing case reports its level",
         "the key of the statement is (method, URL, values of the payload paths of type path_params; empty = absent); path-parameter values are plain tokens "
         "and are varied independently of the URL as the repository's own plugin tests do (in production they are substrings of the URL)",
         "'fresh => hit' is not asserted (the statement does not promise hits); hits are counted in the evidence (req:hit / probe:hit)",
